@@ -173,6 +173,53 @@ Section LogParseP.
     existsb (malformed decode) lines = false -> parse_json [] lines = Crash 1.
   Proof. intro H. unfold LogParse.parse_json. now rewrite (json_lines_ok [] lines H). Qed.
 
+  (* membership form for JSON, and the timestamp of a JSON line *)
+  Lemma json_records_exact ms kvs x :
+    In x (json_records ms kvs) <->
+    exists m v, In m ms /\ jlookup m kvs = Some (JString v) /\ x = MLog (json_timestamp rfc3339 kvs) m v.
+  Proof.
+    unfold LogParse.json_records. rewrite in_flat_map. split.
+    - intros [m [Im I]]. destruct (jlookup m kvs) as [[v|r|]|] eqn:L; [|destruct I|destruct I|destruct I]. destruct I as [<-|[]]. now exists m, v.
+    - intros [m [v [Im [L ->]]]]. exists m. split; [exact Im|]. rewrite L. now left.
+  Qed.
+
+  Lemma json_found_exact ms lines x :
+    In x (flat_map (spec_json_line ms) (filter nonempty lines)) <->
+    exists l kvs m v, In l lines /\ l <> [] /\ decode l = JObj kvs /\ In m ms /\ jlookup m kvs = Some (JString v) /\
+                      x = MLog (json_timestamp rfc3339 kvs) m v.
+  Proof.
+    rewrite in_flat_map. split.
+    - intros [l [Il I]]. apply filter_In in Il. destruct Il as [Il Ne]. unfold LogParse.spec_json_line in I.
+      destruct (decode l) as [|kvs] eqn:D; [destruct I|]. apply json_records_exact in I. destruct I as [m [v [Im [L E]]]].
+      exists l, kvs, m, v. repeat split; try assumption. intros ->. discriminate.
+    - intros [l [kvs [m [v [Il [Ne [D [Im [L E]]]]]]]]]. exists l. split.
+      + apply filter_In. split; [exact Il|]. destruct l; [contradiction|reflexivity].
+      + unfold LogParse.spec_json_line. rewrite D. apply json_records_exact. now exists m, v.
+  Qed.
+
+  (* with no tracked name listed twice, one JSON line never yields the same record twice *)
+  Lemma json_records_nodup ms kvs : NoDup ms -> NoDup (json_records ms kvs).
+  Proof.
+    intro ND. induction ND as [|m r Hm Hr IH]; [constructor|].
+    unfold LogParse.json_records in *. cbn [flat_map].
+    destruct (jlookup m kvs) as [[v|q|]|]; try exact IH. cbn [app]. constructor; [|exact IH].
+    intro I. apply in_flat_map in I. destruct I as [m' [Im' I]].
+    destruct (jlookup m' kvs) as [[v'|q'|]|]; [|destruct I|destruct I|destruct I]. destruct I as [E|[]]. injection E as -> _. contradiction.
+  Qed.
+
+  Lemma json_timestamp_cases kvs :
+    match jlookup timestamp_key kvs with
+    | Some (JString s) => json_timestamp rfc3339 kvs = if nonempty s && rfc3339 s then TsText s else TsText zero_time
+    | Some (JNumber repr) => json_timestamp rfc3339 kvs = match epoch_instant repr with Some z => TsUnix z | None => TsText zero_time end
+    | _ => json_timestamp rfc3339 kvs = TsText zero_time
+    end.
+  Proof.
+    unfold json_timestamp. destruct (jlookup timestamp_key kvs) as [[s|repr|]|]; try reflexivity.
+    - cbn [parse_timestamp]. destruct s as [|c s']; [reflexivity|]. change (str_eqb (c :: s') []) with false.
+      cbn [nonempty andb]. now destruct (rfc3339 (c :: s')).
+    - cbn [parse_timestamp]. now destruct (epoch_instant repr).
+  Qed.
+
   (* ---------------------------------------------------------------- the fallback record *)
   Lemma reports_true obj found : reports obj found = true <-> exists x, In x found /\ mname x = obj.
   Proof.
@@ -214,6 +261,32 @@ Section LogParseP.
     apply in_flat_map in I. destruct I as [kev [_ I]].
     destruct kev as [|w [|n [|v r]]]; try destruct I. cbn [spec_kev] in I.
     destruct (mem (trim_space n) ms) eqn:M; [|destruct I]. destruct I as [<-|[]]. split; [reflexivity|]. now apply mem_In.
+  Qed.
+
+  (* membership form of the comprehension: a record is found iff it is an occurrence of a tracked name *)
+  Lemma spec_line_exact ms fs l x :
+    In x (spec_line ms fs l) <->
+    exists f w n v r, In f fs /\ In (w :: n :: v :: r) (matches f l) /\ In (trim_space n) ms /\
+                      x = MLog (TsText (line_timestamp l)) (trim_space n) (trim_space v).
+  Proof.
+    unfold LogParse.spec_line. rewrite in_flat_map. split.
+    - intros [f [If I]]. apply in_flat_map in I. destruct I as [kev [Ik I]].
+      destruct kev as [|w [|n [|v r]]]; try destruct I. cbn [spec_kev] in I.
+      destruct (mem (trim_space n) ms) eqn:M; [|destruct I]. destruct I as [<-|[]].
+      exists f, w, n, v, r. repeat split; [exact If|exact Ik|now apply mem_In].
+    - intros [f [w [n [v [r [If [Ik [Im ->]]]]]]]]. exists f. split; [exact If|].
+      apply in_flat_map. exists (w :: n :: v :: r). split; [exact Ik|]. cbn [spec_kev].
+      apply mem_In in Im. rewrite Im. now left.
+  Qed.
+
+  Lemma text_found_exact ms fs lines x :
+    In x (flat_map (spec_line ms fs) lines) <->
+    exists l f w n v r, In l lines /\ In f fs /\ In (w :: n :: v :: r) (matches f l) /\ In (trim_space n) ms /\
+                        x = MLog (TsText (line_timestamp l)) (trim_space n) (trim_space v).
+  Proof.
+    rewrite in_flat_map. split.
+    - intros [l [Il I]]. apply spec_line_exact in I. destruct I as [f [w [n [v [r [H1 [H2 [H3 H4]]]]]]]]. exists l, f, w, n, v, r. repeat split; assumption.
+    - intros [l [f [w [n [v [r [Il H]]]]]]]. exists l. split; [exact Il|]. apply spec_line_exact. exists f, w, n, v, r. exact H.
   Qed.
 
   (* ---------------------------------------------------------------- totality / crash sites of CollectObservationLog *)
